@@ -10,7 +10,7 @@ CLAIMED = {}
 for f in sorted(glob.glob(os.path.join(ROOT, "checks", "claimed_*.py"))):
     spec = importlib.util.spec_from_file_location(os.path.basename(f)[:-3], f)
     mod = importlib.util.module_from_spec(spec); spec.loader.exec_module(mod)
-    CLAIMED.update(mod.CLAIMED)
+    CLAIMED.update(getattr(mod, "CLAIMED", {}))
 
 PENDING = "check not built yet in this revision (planned: see DESIGN.md section 7); not claimed until its proof and correspondence run"
 
